@@ -230,6 +230,35 @@ def _code_children(c):
     return [k for k in c.co_consts if isinstance(k, types.CodeType)]
 
 
+def _class_bound(tree):
+    """{(class name, first line): names bound anywhere in the class body (not in nested scopes)}"""
+    out = {}
+    for node in ast.walk(tree):
+        if not isinstance(node, ast.ClassDef):
+            continue
+        names = set()
+        todo = list(node.body)
+        while todo:
+            n = todo.pop()
+            if isinstance(n, (ast.FunctionDef, ast.AsyncFunctionDef, ast.ClassDef)):
+                names.add(n.name)
+                todo.extend(n.decorator_list)
+                continue
+            if isinstance(n, (ast.Lambda, ast.ListComp, ast.SetComp, ast.DictComp, ast.GeneratorExp)):
+                continue
+            if isinstance(n, ast.Name) and not isinstance(n.ctx, ast.Load):
+                names.add(n.id)
+            elif isinstance(n, (ast.Import, ast.ImportFrom)):
+                for a in n.names:
+                    names.add((a.asname or a.name).split('.')[0])
+            elif isinstance(n, ast.ExceptHandler) and n.name:
+                names.add(n.name)
+            todo.extend(ast.iter_child_nodes(n))
+        for ln in set([node.lineno] + [d.lineno for d in node.decorator_list]):
+            out[(node.name, ln)] = names
+    return out
+
+
 def scope_problems(src):
     """('skip' | 'rejected' | 'ok' | 'bad', problems)"""
     import dis
@@ -244,8 +273,12 @@ def scope_problems(src):
         return 'rejected', []
     problems = []
     skipped = []
+    try:
+        cls_bound = _class_bound(ast.parse(src))
+    except (SyntaxError, ValueError, RecursionError):
+        cls_bound = {}
 
-    def walk(o, t, path):
+    def walk(o, t, path, enclosing=frozenset()):
         oc, tc = _code_children(o), _code_children(t)
         if [c.co_name for c in oc] != [c.co_name for c in tc]:
             # the compiler drops unreachable code (after an unconditional raise / return) and with it the
@@ -269,12 +302,19 @@ def scope_problems(src):
             # (names rebound or deleted in a class body are resolved at run time, known finding
             #  C13-class-body-rebinding: not judged here)
             stored = set(i.argval for i in ins if i.opname in ('STORE_NAME', 'DELETE_NAME', 'IMPORT_NAME', 'IMPORT_FROM'))
+            stored |= cls_bound.get((o.co_name, o.co_firstlineno), set())
             loads = set(i.argval for i in ins if i.opname in ('LOAD_NAME', 'LOAD_GLOBAL'))
             loads -= stored | SCOPE_HELPERS | SCOPE_KNOWN | SCOPE_IMPLICIT
+            # (the same finding when the rebinding is in code the compiler drops: the name is a local of an
+            #  enclosing function, yet the compiler reads it with LOAD_NAME in the class body)
+            o_loads = set(i.argval for i in dis.get_instructions(o) if i.opname == 'LOAD_NAME')
+            loads -= (enclosing & o_loads)
             if loads:
                 problems.append(['not-looked-up', path, sorted(loads)])
+        if o.co_flags & 1:
+            enclosing = enclosing | set(o.co_varnames) | set(o.co_cellvars) | set(o.co_freevars)
         for a, b in zip(oc, tc):
-            walk(a, b, path + [a.co_name])
+            walk(a, b, path + [a.co_name], enclosing)
     walk(ref, real, [])
     return ('bad' if problems else ('unreachable-code' if skipped else 'ok')), problems
 
